@@ -95,6 +95,16 @@ CHECKS["C16"] = ("exploration",
     "one producer; OS scheduling with seeded delays; three known data-race findings in known_findings.json",
     "DESIGN.md C16")
 
+CHECKS["C15"] = ("exploration",
+    "log->dump->print round-trip oracle; exhaustive truncations of a base dump plus field-targeted (hash recomputed) "
+    "and random corruptions printed in forked ASan children with guard zones, CPU limit and /dev/shm audit",
+    "Round trip: every printed record is compared field by field with what was logged. Robustness: each damaged file "
+    "is printed by the real qb_log_blackbox_print_from_file in a sandboxed child; the wait status decides (signal, "
+    "abort, ASan/UBSan report, CPU limit = violation) and /dev/shm must be empty afterwards. All truncation lengths "
+    "of one base dump are enumerated (case number = length); the rest of the space is sampled.",
+    "private /dev/shm per worker (mount namespace); ASan + 24 GiB guard zones; RLIMIT_CPU 5 s as the bound for "
+    "'terminates'", "DESIGN.md C15")
+
 REASON_PENDING = "check not registered yet in this revision (implementation in progress, see DESIGN.md section 7)"
 
 
